@@ -931,6 +931,39 @@ pub mod a15 {
         Ok(None)
     }
 }
+pub mod t21 {
+    pub struct Node {
+        pub left: Option<usize>,
+        pub right: Option<usize>,
+    }
+    impl Node {
+        pub fn get_left(&self) -> Option<usize> {
+            self.left
+        }
+        pub fn get_right(&self) -> Option<usize> {
+            self.right
+        }
+    }
+    /// `(Some(left), _)` swallows the case in which both children are present
+    pub fn ctl_hides_right(node: &Node, stack: &mut Vec<usize>) {
+        match (node.get_left(), node.get_right()) {
+            (Some(left), _) => stack.push(left),
+            (None, Some(right)) => stack.push(right),
+            (None, None) => {}
+        }
+    }
+    pub fn ok_all_four_cases(node: &Node, stack: &mut Vec<usize>) {
+        match (node.get_left(), node.get_right()) {
+            (Some(left), Some(right)) => {
+                stack.push(right);
+                stack.push(left);
+            }
+            (Some(left), None) => stack.push(left),
+            (None, Some(right)) => stack.push(right),
+            (None, None) => {}
+        }
+    }
+}
 pub mod g4c {
     use garnish_lang_traits::{GarnishData, TypeConstants};
     pub fn ctl_no_lower_bound<D: GarnishData>(this: &D, list: D::Size, index: D::Number) -> Result<Option<D::Size>, D::Error> {
